@@ -78,7 +78,8 @@ def make_case(seed, i, tier):
         return {"seed": seed, "props": [PROP], "scn": {
             "engine": kind, "maxlen": rng.choice([3, 5, 8, 15, 40]), "reverse": rng.random() < 0.4,
             "x0": rng.uniform(0.0, 1.0), "v0": rng.uniform(-1.0, 1.0), "eng_seed": rng.randrange(1 << 30),
-            "retrace": rng.random() < 0.5, "width": rng.choice([0.05, 0.2, 0.6])}}
+            "retrace": rng.random() < 0.5, "width": rng.choice([0.05, 0.2, 0.6]),
+            "subcycles": rng.choice([1, 1, 2, 3])}}
     scn = {
         "engine": engine,
         "op": rng.choice(["Distance", "Distance", "Distancevel"]),
@@ -114,7 +115,10 @@ def make_case(seed, i, tier):
         scn["maxlen"] = max(scn["maxlen"], scn["cross_after"] + rng.choice([1, 2, 5]))
     scn["early_hint"] = scn["cross_after"] + 1
     if scn["retrace"]:
-        scn.update(box_growth=0.0, fail=None, reverse=False)
+        scn.update(box_growth=0.0, fail=None, reverse=False, early_exit=False, instant=False)
+        scn["cross_after"] = max(scn["cross_after"], 3)
+        scn["maxlen"] = max(scn["maxlen"], 6)
+        scn["early_hint"] = scn["cross_after"] + 1
     if engine != "lammps":
         scn["box_growth"] = 0.0         # CP2K / GROMACS runs here are constant volume
     return {"seed": seed, "scn": scn, "props": [PROP]}
@@ -328,14 +332,16 @@ def run_inproc(case):
     try:
         if kind.startswith("turtle"):
             eng, wconf, rframes, order = E.build_turtle(
-                scratch, "VelocityVerlet" if kind == "turtle_vv" else "LangevinInertia", scn["eng_seed"])
+                scratch, "VelocityVerlet" if kind == "turtle_vv" else "LangevinInertia", scn["eng_seed"],
+                subcycles=scn.get("subcycles", 1))
             x0 = -1.0 + 0.3 * (scn["x0"] - 0.5)
             v0 = scn["v0"] * 0.6
             left, right = x0 - scn["width"], x0 + scn["width"]
             tol, ext = 2e-9, "start.xyz"
         elif kind.startswith("ase"):
             eng, wconf, rframes, order = E.build_ase(
-                scratch, "velocityverlet" if kind == "ase_vv" else "langevin", scn["eng_seed"])
+                scratch, "velocityverlet" if kind == "ase_vv" else "langevin", scn["eng_seed"],
+                subcycles=scn.get("subcycles", 1))
             x0 = 5.0 + scn["x0"]
             v0 = scn["v0"] * 0.2
             left, right = x0 - 4 * scn["width"], x0 + 4 * scn["width"]
@@ -408,6 +414,18 @@ def run_inproc(case):
                         raise Bad("backward_does_not_retrace", f"{kind}: backward frame {i2} from forward frame "
                                   f"{j}: {o} vs {ops[j - i2]}", site=kind)
                 outcome = "ok+retrace"
+                if back.length >= 3:
+                    # and forward again from a frame of the backward segment (its vel_rev is True)
+                    m = 1 + k.choose("retrace_again_from", back.length - 1)
+                    again = Path(maxlen=m + 1)
+                    ok3, _ = eng.propagate(again, ens, back.phasepoints[m].copy(), reverse=False)
+                    aops = check(again, ok3, False, "forward from a backward frame")
+                    for i3, o in enumerate(aops):
+                        if m - i3 >= 0 and abs(o - bops[m - i3]) > 4e-6 * max(1.0, abs(o)):
+                            raise Bad("forward_from_backward_frame_does_not_retrace",
+                                      f"{kind}: frame {i3} of a forward run started from backward frame {m}: "
+                                      f"{o} vs {bops[m - i3]}", site=kind)
+                    outcome = "ok+retrace2"
         except Bad as b:
             known = any(e.get("property") == PROP and e.get("class") == b.vclass
                         and e.get("site") in (None, b.site) for e in case.get("known", []))
@@ -415,10 +433,10 @@ def run_inproc(case):
                                "inc": None, "step": None, "known": known})
         return {
             "violations": violations, "trace": k.trace, "digest": str(hash64(str(k.trace))),
-            "probes": {"inproc_propagate_calls": 1 + (outcome == "ok+retrace"), "inproc_" + kind: 1},
+            "probes": {"inproc_propagate_calls": 1 + outcome.count("retrace") + outcome.count("2"), "inproc_" + kind: 1},
             "faults": {}, "stats": {}, "sim_time": 0.0, "ksteps": 0,
             "sig": str((kind, scn["reverse"], scn["maxlen"], outcome, scn["width"])),
-            "nontrivial": outcome == "ok+retrace" or scn["reverse"],
+            "nontrivial": outcome.startswith("ok+retrace") or scn["reverse"],
             "cov": {"outcomes": [kind + ":" + outcome]},
             "sample": {"seed": case["seed"], "scenario": scn, "outcome": outcome},
         }
@@ -476,6 +494,22 @@ def run(case):
                                   f"{scn['engine']}: backward frame {i2} from forward frame {j}: {o} vs "
                                   f"{fwd[j - i2]}", site=scn["engine"])
                 outcome = "ok+retrace"
+                if back.length >= 3:
+                    # forward again from a frame of the backward segment (vel_rev already True)
+                    m = 1 + k.choose("retrace_again_from", back.length - 1)
+                    again = Path(maxlen=m + 1)
+                    eng.propagate(again, ens, back.phasepoints[m].copy(), reverse=False)
+                    tol2 = 2e-4 if scn["engine"] == "gromacs" else 4e-6
+                    for i3, pp in enumerate(again.phasepoints):
+                        o = float(pp.order[0])
+                        if m - i3 >= 0 and abs(o - bwd[m - i3]) > tol2 * max(1.0, abs(o)):
+                            raise Bad("forward_from_backward_frame_does_not_retrace",
+                                      f"{scn['engine']}: frame {i3} of a forward run started from backward frame "
+                                      f"{m}: {o} vs {bwd[m - i3]}", site=scn["engine"])
+                        if bool(pp.vel_rev):
+                            raise Bad("wrong_vel_rev", f"{scn['engine']}: forward frame {i3} has vel_rev=True",
+                                      site=scn["engine"])
+                    outcome = "ok+retrace2"
         except Bad as b:
             known = any(e.get("property") == PROP and e.get("class") == b.vclass
                         and e.get("site") in (None, b.site) for e in case.get("known", []))
